@@ -185,6 +185,20 @@ def write_replay(chk, cid, base_seed, idx, v, scenario, shrink_budget):
     return path, final
 
 
+def verify_replay(cid, path):
+    """Replays the file in a fresh interpreter: it must fail the same way with the same event-log digest."""
+    import subprocess
+
+    try:
+        p = subprocess.run([sys.executable, os.path.join(rt.VERIF_ROOT, "check"), cid, "--replay", path], stdout=subprocess.PIPE, stderr=subprocess.STDOUT, text=True, timeout=300)
+    except Exception as e:
+        return "replay NOT verified (%s)" % e
+    same = "digest" in p.stdout and "): match" in p.stdout
+    if p.returncode == 1 and same:
+        return "replay verified in a fresh process: same violation, same event-log digest"
+    return "replay NOT verified: exit=%d digest_match=%s" % (p.returncode, same)
+
+
 def do_replay(cid, path):
     chk = load_check(cid)
     data = json.load(open(path))
@@ -290,6 +304,8 @@ def main(argv=None):
             final = v
         print("VIOLATION property=%s replay=%s" % (v["property"], path))
         print("  clause=%s site=%s details=%s" % (final["clause"], final["site"], json.dumps(final["details"], sort_keys=True, default=str)[:600]))
+        if new_violations <= 4 and not os.environ.get("VERIF_NO_REPLAY_VERIFY"):
+            print("  " + verify_replay(cid, path))
     wall = time.time() - t0
     core.write_evidence(
         cid,
